@@ -111,7 +111,7 @@ class World:
 
     def monotonic(self):
         # the only clock httpcore reads
-        if self.tick:
+        if self.tick and not self.observing:
             self.now += self.tick
         return self.now
 
